@@ -31,7 +31,7 @@ CONSTANTS N,            \* number of chunks / workers
           P,            \* n_processors
           FaultKs,      \* workers that may fail (0 = no fault); one is chosen per behaviour
           FaultPoints,  \* subset of {"before", "mid", "after"}
-          FaultModes,   \* subset of {"kill", "exit3", "raise"}
+          FaultModes,   \* subset of {"kill", "exit3", "raise", "term"}
           Fixed         \* model the repaired clean-up
 
 W == 1..N
@@ -53,7 +53,7 @@ FaultK == fault.k
 FaultPoint == fault.pt
 FaultMode == fault.mode
 
-Codes == [kill |-> -9, exit3 |-> 3, raise |-> 1]
+Codes == [kill |-> -9, exit3 |-> 3, raise |-> 1, term |-> -15]
 Done(k) == ws[k] \in {"exit0", "dead"}
 Crash(k, pt) == k = FaultK /\ pt = FaultPoint
 ExitCode(k) == IF ws[k] = "exit0" THEN 0 ELSE IF ws[k] = "dead" THEN Codes[FaultMode] ELSE 99  \* 99 = None
